@@ -477,7 +477,11 @@ def oracles(ctx: Ctx) -> None:
                 ("cli-empty-arg", "", [""]), ("cli-bad-format", "", ["--format", "json"]), ("cli-explain-bad", "", ["--explain", "x"]),
                 ("config-missing", None, ["--config-file", "nope.toml"]), ("config-is-dir", None, ["--config-file", "."]),
                 ("config-path-through-a-file", None, ["--config-file", "t.py/conf.toml"]), ("config-name-too-long", None, ["--config-file", "x" * 300 + ".toml"])]
-        for name, text, extra in scen[: ctx.budget(24, 24)]:
+        # the same malformed command lines in a directory that has no config file at all (the other way into load_settings)
+        scen += [(name + "-without-any-config-file", None, extra) for name, text, extra in scen if name.startswith("cli-")]
+        scen += [("split-both-all-config-enable", "[tool.refurb]\nenable_all = true\n", ["--disable-all", "--enable-all"]),
+                 ("both-all-after-files-without-any-config-file", None, ["--disable-all", "x.py", "--enable-all"])]
+        for name, text, extra in scen:
             cfgp = Path(td) / "pyproject.toml"
             if cfgp.exists():
                 cfgp.unlink()
